@@ -237,4 +237,76 @@ example : ∀ n, (fun l : List Char => l.length - 1) (xs n) = n := by intro n; s
 example : parseRow "│     ╰─ t=4     1.2 ns │ 3 ns".toList =
     some ⟨3, true, [true, false], "t=4".toList⟩ := by decide
 
+/-! ## The cells of a row -/
+
+/-- scanning over a cell without a bar, followed by nothing or by something that starts with a blank,
+    finds no separator inside it -/
+theorem splitCellsGo_cell (c : List Char) : ∀ (cur rest : List Char), '│' ∉ c →
+    (rest = [] ∨ ∃ r, rest = ' ' :: r) →
+    splitCellsGo cur (c ++ rest) = splitCellsGo (c.reverse ++ cur) rest := by
+  induction c with
+  | nil => intro cur rest _ _; simp
+  | cons x xs ih =>
+    intro cur rest hx hr
+    have hx1 : x ≠ '│' := fun h => hx (by simp [h])
+    have hx2 : '│' ∉ xs := fun h => hx (by simp [h])
+    have step : splitCellsGo cur (x :: (xs ++ rest)) = splitCellsGo (x :: cur) (xs ++ rest) := by
+      cases xs with
+      | nil =>
+        rcases hr with h | ⟨r, h⟩
+        · subst h; simp [splitCellsGo]
+        · subst h
+          by_cases hsp : x = ' '
+          · subst hsp
+            cases r with
+            | nil => simp [splitCellsGo]
+            | cons r0 r1 => simp [splitCellsGo]
+          · simp [splitCellsGo]
+      | cons y ys =>
+        have hy : y ≠ '│' := fun h => hx2 (by simp [h])
+        by_cases hsp : x = ' '
+        · subst hsp
+          simp only [List.cons_append]
+          rw [splitCellsGo]
+          · intro a b h1; exact hy (List.cons.inj h1).1
+        · simp only [List.cons_append]
+          rw [splitCellsGo]
+          · intro r h _; exact hsp h
+    simp only [List.cons_append]
+    rw [step, ih (x :: cur) rest hx2 hr]
+    simp
+
+/-- **the cells of a row read back**: joining any non-empty list of cells none of which contains a bar
+    (numbers, units, blanks) with ` │ ` and splitting at ` │ ` gives the cells back -/
+theorem splitCells_joinCells : ∀ (cells : List (List Char)), cells ≠ [] → (∀ c ∈ cells, '│' ∉ c) →
+    ∀ cur, splitCellsGo cur (joinCells cells) =
+      ((cur.reverse ++ cells.headD []) :: cells.tail)
+  | [], h, _ => absurd rfl h
+  | [c], _, hc => by
+    intro cur
+    have := splitCellsGo_cell c cur [] (hc c (by simp)) (Or.inl rfl)
+    simp only [List.append_nil] at this
+    simp [joinCells, this, splitCellsGo]
+  | c :: d :: ds, _, hc => by
+    intro cur
+    have h1 := splitCellsGo_cell c cur (cellSep ++ joinCells (d :: ds)) (hc c (by simp))
+      (Or.inr ⟨'│' :: ' ' :: joinCells (d :: ds), rfl⟩)
+    have ih := splitCells_joinCells (d :: ds) (List.cons_ne_nil _ _) (fun x hx => hc x (by simp [hx])) []
+    rw [joinCells, h1]
+    case x_1 => intro h; cases h
+    simp only [cellSep, List.cons_append, List.nil_append, splitCellsGo, ih]
+    simp
+
+theorem cells_read_back (cells : List (List Char)) (h : cells ≠ []) (hc : ∀ c ∈ cells, '│' ∉ c) :
+    splitCells (joinCells cells) = cells := by
+  have := splitCells_joinCells cells h hc []
+  unfold splitCells
+  rw [this]
+  cases cells with
+  | nil => exact absurd rfl h
+  | cons c cs => simp
+
+example : splitCells "1.2 ns │ 3 ns │ 2 ns │ 2.1 ns │ 100 │ 200".toList =
+    ["1.2 ns".toList, "3 ns".toList, "2 ns".toList, "2.1 ns".toList, "100".toList, "200".toList] := by decide
+
 end C20Codec
